@@ -249,7 +249,7 @@ package helpers
 // ---------------------------------------------------------------------------------------------
 // C20 / C03: ASCII case-insensitive search on raw strings (used by the string prefix filters)
 // ---------------------------------------------------------------------------------------------
-//@ spec func AFEqS(s string, i int, prefix string) bool = 0 <= i && i + len(prefix) <= len(s) && forall j int :: 0 <= j && j < len(prefix) ==> AsciiFold(s[i+j]) == AsciiFold(prefix[j])
+//@ spec func AFEqS(s string, i int, prefix string) bool = 0 <= i && i + len(prefix) <= len(s) && forall j int {prefix[j]} :: 0 <= j && j < len(prefix) ==> AsciiFold(s[i+j]) == AsciiFold(prefix[j])
 
 // first byte of s that equals ch up to ASCII case, or -1
 //@ func indexASCIIByteIgnoreCase(s string, ch byte) (r int)
@@ -271,8 +271,8 @@ package helpers
 //@   props C20 C03
 //@   ensures[empty] len(prefix) == 0 ==> r == 0
 //@   ensures[hit]   r >= 0 && len(prefix) > 0 ==> AFEqS(s, r, prefix)
-//@   ensures[first] len(prefix) > 0 ==> forall k int :: 0 <= k && (r < 0 || k < r) ==> !AFEqS(s, k, prefix)
+//@   ensures[first] len(prefix) > 0 ==> forall k int {mark(k)} :: 0 <= k && (r < 0 || k < r) ==> !AFEqS(s, k, prefix)
 //@   loop 0:
 //@     invariant 0 <= start && len(prefix) > 0 && end == len(s) - len(prefix)
-//@     invariant forall k int :: 0 <= k && k < start ==> !AFEqS(s, k, prefix)
+//@     invariant forall k int {mark(k)} :: 0 <= k && k < start ==> !AFEqS(s, k, prefix)
 //@     decreases end - start + 1
